@@ -133,9 +133,11 @@ def pendSum (cfg : Cfg) (hs : List (MKey × List Int)) (p : Parts) : Int :=
 
 def opCount (cfg : Cfg) (p : Parts) : Op → Nat
   | .hrec k _ => if partsOf cfg k = p then 1 else 0
+  | .hrecMany k _ n => if partsOf cfg k = p then n else 0
   | _ => 0
 def opSum (cfg : Cfg) (p : Parts) : Op → Int
   | .hrec k v => if partsOf cfg k = p then v else 0
+  | .hrecMany k v n => if partsOf cfg k = p then (n : Int) * v else 0
   | _ => 0
 
 theorem getDist_upsert2 (ds : List (Str × List (List Str × Dist))) (n : Str) (l : List Str) (d0 : Dist)
@@ -228,9 +230,9 @@ theorem pendSum_drained (cfg : Cfg) (hs : List (MKey × List Int)) (p : Parts) :
     simp only [pendSum, List.map_cons, List.sum_cons, List.sum_nil, ite_self, Int.zero_add] at ih ⊢
     exact ih
 
-theorem pendCount_upsert (cfg : Cfg) (hs : List (MKey × List Int)) (k : MKey) (v : Int) (p : Parts) :
-    pendCount cfg (upsert hs k [] (fun q => q ++ [v])) p
-      = pendCount cfg hs p + (if partsOf cfg k = p then 1 else 0) := by
+theorem pendCount_upsert_app (cfg : Cfg) (hs : List (MKey × List Int)) (k : MKey) (vs : List Int) (p : Parts) :
+    pendCount cfg (upsert hs k [] (fun q => q ++ vs)) p
+      = pendCount cfg hs p + (if partsOf cfg k = p then vs.length else 0) := by
   induction hs with
   | nil => simp [upsert, pendCount]
   | cons x xs ih =>
@@ -238,14 +240,19 @@ theorem pendCount_upsert (cfg : Cfg) (hs : List (MKey × List Int)) (k : MKey) (
     simp only [upsert]
     by_cases hx : kx = k
     · subst hx
-      simp only [if_true, pendCount, List.map_cons, List.sum_cons, List.length_append, List.length_singleton]
+      simp only [if_true, pendCount, List.map_cons, List.sum_cons, List.length_append]
       split <;> omega
     · simp only [hx, if_false, pendCount, List.map_cons, List.sum_cons] at ih ⊢
       omega
 
-theorem pendSum_upsert (cfg : Cfg) (hs : List (MKey × List Int)) (k : MKey) (v : Int) (p : Parts) :
-    pendSum cfg (upsert hs k [] (fun q => q ++ [v])) p
-      = pendSum cfg hs p + (if partsOf cfg k = p then v else 0) := by
+theorem pendCount_upsert (cfg : Cfg) (hs : List (MKey × List Int)) (k : MKey) (v : Int) (p : Parts) :
+    pendCount cfg (upsert hs k [] (fun q => q ++ [v])) p
+      = pendCount cfg hs p + (if partsOf cfg k = p then 1 else 0) := by
+  simpa using pendCount_upsert_app cfg hs k [v] p
+
+theorem pendSum_upsert_app (cfg : Cfg) (hs : List (MKey × List Int)) (k : MKey) (vs : List Int) (p : Parts) :
+    pendSum cfg (upsert hs k [] (fun q => q ++ vs)) p
+      = pendSum cfg hs p + (if partsOf cfg k = p then vs.sum else 0) := by
   induction hs with
   | nil => simp [upsert, pendSum]
   | cons x xs ih =>
@@ -253,10 +260,22 @@ theorem pendSum_upsert (cfg : Cfg) (hs : List (MKey × List Int)) (k : MKey) (v 
     simp only [upsert]
     by_cases hx : kx = k
     · subst hx
-      simp only [if_true, pendSum, List.map_cons, List.sum_cons, List.sum_append, List.sum_cons, List.sum_nil]
+      simp only [if_true, pendSum, List.map_cons, List.sum_cons, List.sum_append]
       split <;> omega
     · simp only [hx, if_false, pendSum, List.map_cons, List.sum_cons] at ih ⊢
       omega
+
+theorem pendSum_upsert (cfg : Cfg) (hs : List (MKey × List Int)) (k : MKey) (v : Int) (p : Parts) :
+    pendSum cfg (upsert hs k [] (fun q => q ++ [v])) p
+      = pendSum cfg hs p + (if partsOf cfg k = p then v else 0) := by
+  simpa using pendSum_upsert_app cfg hs k [v] p
+
+theorem sum_replicate_int (n : Nat) (v : Int) : (List.replicate n v).sum = (n : Int) * v := by
+  induction n with
+  | zero => simp
+  | succ n ih =>
+    simp only [List.replicate_succ, List.sum_cons, ih]
+    rw [Int.natCast_succ, Int.add_mul, Int.one_mul, Int.add_comm]
 
 theorem step_cfg (s : St) (op : Op) : (step s op).cfg = s.cfg := by
   cases op <;> simp only [step] <;> try rfl
@@ -273,6 +292,7 @@ theorem step_count (s : St) (op : Op) (p : Parts) :
   | gset k v => rfl
   | gadd k n => rfl
   | hrec k v => simp only [step, opCount, pendCount_upsert]; omega
+  | hrecMany k v n => simp only [step, opCount, pendCount_upsert_app, List.length_replicate]; omega
   | upkeep =>
     simp only [step, opCount, drain_dists, drain_hists, drainFold_count, pendCount_drained]
 
@@ -286,6 +306,7 @@ theorem step_sum (s : St) (op : Op) (p : Parts) :
   | gset k v => simp [step, opSum]
   | gadd k n => simp [step, opSum]
   | hrec k v => simp only [step, opSum, pendSum_upsert]; omega
+  | hrecMany k v n => simp only [step, opSum, pendSum_upsert_app, sum_replicate_int]; omega
   | upkeep =>
     simp only [step, opSum, drain_dists, drain_hists, drainFold_sum, pendSum_drained]
 
